@@ -613,8 +613,55 @@ func buildSweeps(thorough bool) []sweep {
 			}})
 	}
 
+	// R: histories with the transport-wide credential re-assigned between calls on ONE Runtime
+	rdefaults := []*Cred{nil,
+		{Kind: "bearer", Token: "def-tok-1"},
+		{Kind: "bearer", Token: "def-tok-2"},
+		{Kind: "basic", User: "def-user", Pass: "def:pass"},
+		{Kind: "apikey", Name: "X-Key", In: "header", Token: "def-key"},
+		{Kind: "apikey", Name: "api_key", In: "query", Token: "def-qkey"}}
+	rcalls := []Client{
+		{Method: "POST", Media: "json"}, // no AuthInfo: the default credential's turn
+		{Method: "POST", Media: "json", OpAuth: []Cred{{Kind: "apikey", Name: "x-key", In: "header", Token: "op-key"}}},
+		{Method: "POST", Media: "json", OpAuth: []Cred{{Kind: "bearer", Token: "op-tok"}}},
+		{Method: "POST", Media: "json", OpAuth: []Cred{{Kind: "passthrough"}}},
+		{Method: "POST", Media: "json", Preset: &Cred{Kind: "raw", Raw: "Token pre-set"}},
+		{Method: "POST", Media: "json", Preset: &Cred{Kind: "bearer", Token: "pre-tok"}, PresetName: "authorization"},
+	}
+	rservers := []Server{
+		{Kind: "bearer", Param: "scoped", Scheme: "o", Scopes: []string{"a"}, CB: "ok"},
+		{Kind: "basic", Param: "scoped", Realm: "-", CB: "ok"},
+		{Kind: "apikey", Param: "scoped", Name: "X-Key", In: "header", CB: "ok"},
+		{Kind: "apikey", Param: "request", Name: "api_key", In: "query", CB: "ok"},
+	}
+	nr := len(rdefaults) * len(rcalls)
+	mkHist := func(steps []int, srv Server, ctx, wire bool) Case {
+		var head *Case
+		for k := len(steps) - 1; k >= 0; k-- {
+			cl := rcalls[steps[k]%len(rcalls)]
+			cl.Default = rdefaults[steps[k]/len(rcalls)]
+			s := srv
+			s.Ctx = ctx
+			head = &Case{Mode: "unit", Wire: wire, Client: &cl, Server: &s, Then: head}
+		}
+		return *head
+	}
+	histDoc := "histories on ONE client Runtime: each step = (value assigned to Runtime.DefaultAuthentication before the call: none, bearer token 1, bearer token 2, basic, key header, key query) x (the call: no AuthInfo, own key header, own bearer, PassThroughAuth, Authorization preset with a foreign scheme, Authorization preset as bearer under a lower-case name); every step must put on the wire exactly what the fresh-instance reference gives for the CURRENT default value, that call's AuthInfo and that call's own header; all 36 steps"
+	sw = append(sw, sweep{name: "default-reassignment-pairs",
+		doc:   histDoc + " ^2 x 4 authenticators x ctx x transport",
+		sizes: []int{nr, nr, len(rservers), 2, 2},
+		gen: func(i []int) (Case, bool) {
+			return mkHist([]int{i[0], i[1]}, rservers[i[2]], i[3] == 1, i[4] == 0), true
+		}})
+	sw = append(sw, sweep{name: "default-reassignment-triples",
+		doc:   histDoc + " ^3 x 4 authenticators, plain variants over the wire",
+		sizes: []int{nr, nr, nr, len(rservers)},
+		gen: func(i []int) (Case, bool) {
+			return mkHist([]int{i[0], i[1], i[2]}, rservers[i[3]], false, true), true
+		}})
+
 	// small, discriminating sweeps first: a run cut by its time budget has then covered every clause
-	rank := map[string]int{"cross-kind": 0, "middleware": 1, "default-credential": 2, "decoy-carriers": 3, "sequences-pairs": 4, "bearer-placements": 5, "apikey-cross": 6, "basic-config": 7, "bearer-token-values": 8, "sequences-triples": 9}
+	rank := map[string]int{"cross-kind": 0, "middleware": 1, "default-credential": 2, "decoy-carriers": 3, "default-reassignment-pairs": 4, "sequences-pairs": 4, "default-reassignment-triples": 5, "bearer-placements": 5, "apikey-cross": 6, "basic-config": 7, "bearer-token-values": 8, "sequences-triples": 9}
 	sort.SliceStable(sw, func(i, j int) bool {
 		ri, ok := rank[sw[i].name]
 		if !ok {
@@ -702,7 +749,11 @@ func main() {
 					continue
 				}
 				v := check(c)
-				evals++
+				if v.steps > 1 {
+					evals += int64(v.steps)
+				} else {
+					evals++
+				}
 				outcomes[v.outcome]++
 				if v.class != "" {
 					r.Fail(v.class, v.what, c)
@@ -746,5 +797,5 @@ func main() {
 		"the wire is Request.Write + http.ReadRequest of the standard library (no socket, no server-side header validation)",
 		"combinations in which two writers set the same header or parameter are outside the space (the text does not say who wins)",
 		"MAY (never reported, recorded in the outcome labels): whether the request body is still readable after authentication (observed on the pinned tree: basic and api-key authenticators and bearer with a header or query token leave it intact, bearer reads a form body); empty key or token values; form placement with methods other than POST/PUT/PATCH; error value returned together with 'not applicable'; FailedBasicAuth after accepted credentials; OAuth2SchemeName when not applicable; what a Ctx callback's context carries")
-	r.Finish("every element of the stated sweeps (products of explicit axes, ambiguous and duplicated combinations removed by stated rules) is executed once on the real client writers, Runtime.CreateHttpRequest, Request.Write/http.ReadRequest and the real authenticator; one evaluation = one pipeline; the space includes decoy carriers (the credential's name in every place the authenticator is not specified to read, same and different values, methods with and without body) and ordered pairs (thorough: triples) of requests on one shared Runtime and authenticator value, each step judged as on fresh instances; non-trivial = the request carried at least one credential or placement and the authenticator under test was consulted (or the oracle failed); distinct = number of different 64-bit FNV hashes of the canonical JSON of the case, so a case reached by two sweeps is counted once", complete)
+	r.Finish("every element of the stated sweeps (products of explicit axes, ambiguous and duplicated combinations removed by stated rules) is executed once on the real client writers, Runtime.CreateHttpRequest, Request.Write/http.ReadRequest and the real authenticator; one evaluation = one pipeline (a sequence of n steps counts n); the space includes decoy carriers (the credential's name in every place the authenticator is not specified to read, same and different values, methods with and without body) and ordered pairs (thorough: triples) of requests on one shared Runtime and authenticator value, each step judged as on fresh instances, and histories of 2-3 calls on one Runtime with Runtime.DefaultAuthentication re-assigned between the calls (6 values x 6 kinds of call per step); non-trivial = the request carried at least one credential or placement and the authenticator under test was consulted (or the oracle failed); distinct = number of different 64-bit FNV hashes of the canonical JSON of the case, so a case reached by two sweeps is counted once", complete)
 }
